@@ -102,6 +102,8 @@ struct Shared {
     /// Total frame budget over both directions; when exceeded both sinks block forever.
     budget: Option<u64>,
     budget_exceeded: bool,
+    /// Frames counted against the budget (keep-alive pings are not counted).
+    budget_used: u64,
 }
 
 impl Shared {
@@ -225,6 +227,7 @@ impl SimLink {
             record_payload: true,
             budget: None,
             budget_exceeded: false,
+            budget_used: 0,
         }));
         {
             let mut s = shared.lock().unwrap();
@@ -323,7 +326,7 @@ impl Sink<Bytes> for SimSink {
     fn poll_ready(self: Pin<&mut Self>, cx: &mut Context<'_>) -> Poll<Result<(), Self::Error>> {
         let mut s = self.shared.lock().unwrap();
         if let Some(b) = s.budget {
-            if (s.dirs[0].sent + s.dirs[1].sent) as u64 >= b {
+            if s.budget_used >= b {
                 s.budget_exceeded = true;
                 return Poll::Pending;
             }
@@ -347,6 +350,9 @@ impl Sink<Bytes> for SimSink {
         let mut s = self.shared.lock().unwrap();
         let t_ms = s.now_ms();
         let tap = s.tap.clone();
+        if item[..] != [3u8] {
+            s.budget_used += 1;
+        }
         let d = &mut s.dirs[dir as usize];
         if d.sink_failed {
             return Err(link_err("sink error injected"));
